@@ -128,6 +128,20 @@ def main():
     for mm in sorted({m, "fullmatch", "match", "search"}):
         bad += check("neurolucida_asc.py RE_FLOAT", p, f, mm, getattr(re.compile(p, f), mm), n, rnd, ("1,5", "1.2.3", "2.5E-", "1_0", "1."))
 
+    # --- synthetic patterns covering the supported subset
+    for p, f in [(r"a{2,3}b{2,}[^a-c\d].", 0), (r"(?:ab|a)(?:c|bc)$", 0), (r"x(?!y)[xy]*\Z", 0), (r"\w+?\W", re.ASCII), (r"(?=.*\d)[a-z0-9]{2,4}$", 0),
+                 (r"^(\s*)(-?\d+)(?:,(\S*))?\s*$", 0), (r"\d+\s\w", re.ASCII), (r"\A[+-]?(?:0|[1-9]\d*)(?=[eE.]|$)", 0), (r"[\s\S]x|[^\n]$", 0)]:
+        for mm in ("search", "match", "fullmatch"):
+            bad += check(f"synthetic {p} flags={int(f)}", p, f, mm, getattr(re.compile(p, f), mm), max(200, n // 5), rnd, ("", "\n", "aab", "abc\n"))
+    refused = 0
+    for p, f in [(r"\w", 0), (r"(a)\1", 0), (r"(?<=a)b", 0), (r"\bword", 0), (r"a", re.I), (r"a.b", re.S), (r"^a$", re.M), (r"a|^b", 0), (r"(?:a$)*", 0), (r"(?>a+)b", 0), (r"a*+b", 0), (r"(?i:a)", 0), (r"(a)(?(1)b|c)", 0)]:
+        try:
+            RZ.Pat(p, f).search()
+            print(f"NOT REFUSED: {p!r} flags={int(f)}")
+            bad += 1
+        except RZ.Unsupported:
+            refused += 1
+    print(f"unsupported constructs refused: {refused}")
     # --- the reference grammars against the interpreter
     def ok(fn):
         def f(s):
